@@ -31,12 +31,20 @@ HARNESSES = {
     'path_new_with_replace_small': (False, 'ident/key/value <= 2 ASCII bytes, one-entry table', ['src/ty/path.rs Path::new_with_replace'], 1800),
     # C06
     'enc_symbol_compact': (True, 'none (all u32)', ['derived Encode of UntrackedSymbol (#[codec(compact)] id)'], 600),
-    'enc_typedef_leaves': (True, 'none (all u32 x u32, all 15 primitives, 5 definition kinds)',
-                           ['derived Encode of TypeDef / TypeDefPrimitive / TypeDefArray / TypeDefSequence / TypeDefCompact / TypeDefBitSequence'], 900),
-    'enc_field': (False, 'docs <= 2, marker strings, symbolic presence flags and id', ['derived Encode of Field'], 1800),
-    'enc_variant': (False, 'fields <= 1, docs <= 1, marker strings', ['derived Encode of Variant'], 1800),
-    'enc_typedef_containers': (False, '<= 1 field / variant, <= 2 tuple members', ['derived Encode of TypeDefComposite / TypeDefVariant / TypeDefTuple'], 1800),
-    'enc_type_and_registry': (False, 'path <= 2, params <= 1, docs <= 1, registry <= 1 entry', ['derived Encode of Type / TypeParameter / Path / PortableType / PortableRegistry'], 1800),
+    'enc_def_sequence': (True, 'none (all u32)', ['derived Encode of TypeDef / TypeDefSequence'], 900),
+    'enc_def_array': (True, 'none (all u32 x u32)', ['derived Encode of TypeDef / TypeDefArray'], 900),
+    'enc_def_primitive': (True, 'none (all 15 primitives)', ['derived Encode of TypeDef / TypeDefPrimitive'], 900),
+    'enc_def_compact': (True, 'none (all u32)', ['derived Encode of TypeDef / TypeDefCompact'], 900),
+    'enc_def_bitsequence': (True, 'none (all u32 x u32)', ['derived Encode of TypeDef / TypeDefBitSequence'], 900),
+    'enc_field_a': (False, 'fixed shape (name, no type name, no docs), id symbolic', ['derived Encode of Field'], 1200),
+    'enc_field_b': (False, 'fixed shape (no name, type name, 1 doc), id symbolic', ['derived Encode of Field'], 1200),
+    'enc_variant': (False, 'fixed shape (1 field, 1 doc), index and id symbolic', ['derived Encode of Variant'], 1200),
+    'enc_def_composite': (False, 'fixed shape (1 field), id symbolic', ['derived Encode of TypeDef / TypeDefComposite'], 1200),
+    'enc_def_variant': (False, 'fixed shape (1 field-less variant), index symbolic', ['derived Encode of TypeDef / TypeDefVariant'], 1200),
+    'enc_def_tuple': (False, 'fixed shape (2 members), ids symbolic', ['derived Encode of TypeDef / TypeDefTuple'], 1200),
+    'enc_type_and_registry': (False, 'fixed shape (path 2, 1 parameter, array def, 1 doc, 1 entry), all ids / len symbolic',
+                              ['derived Encode of Type / TypeParameter / Path / PortableType / PortableRegistry'], 1800),
+    'enc_type_param_none': (False, 'fixed shape (1 parameter without type), id symbolic', ['derived Encode of Type / TypeParameter'], 1200),
     # stand-ins for functions left external in the Verus units
     'builder_new_is_empty': (True, 'none (no inputs)', ['src/portable.rs PortableRegistryBuilder::new'], 600),
     'builder_finish_lists_values': (False, '<= 3 registrations over 3 distinct values', ['src/portable.rs PortableRegistryBuilder::finish'], 1800),
@@ -81,12 +89,22 @@ def prepare(scratch):
             raise KaniSetupError('injection changed an existing line: ' + l)
 
 
+MEM_LIMIT_GB = int(os.environ.get('VERIF_KANI_MEM_GB', '14'))
+
+
+def _limit():
+    import resource
+    lim = MEM_LIMIT_GB * 1024 ** 3
+    resource.setrlimit(resource.RLIMIT_AS, (lim, lim))
+    os.setsid()
+
+
 def run_one(scratch, harness, timeout):
     cmd = ['cargo', 'kani', '-Z', 'function-contracts', '-Z', 'stubbing', '--harness', harness]
     env = dict(os.environ, CARGO_NET_OFFLINE='true')
     t0 = time.time()
     p = subprocess.Popen(cmd, cwd=scratch, env=env, stdout=subprocess.PIPE, stderr=subprocess.STDOUT, text=True,
-                         start_new_session=True)
+                         preexec_fn=_limit)
     try:
         out, _ = p.communicate(timeout=timeout)
         timed_out = False
@@ -115,6 +133,9 @@ def parse(out):
         if cov and int(cov.group(1)) < int(cov.group(2)):
             res['status'] = 'undecided'
             res['reason'] = 'VACUITY: only %s of %s cover properties satisfied' % (cov.group(1), cov.group(2))
+    elif 'VERIFICATION:- FAILED' in out and ('run out of memory' in out or 'CBMC failed' in out or 'CBMC timed out' in out):
+        res['status'] = 'undecided'
+        res['reason'] = 'CBMC ran out of memory / crashed (tool limit, not a verdict)'
     elif 'VERIFICATION:- FAILED' in out:
         # which checks failed?
         fails = []
